@@ -22,11 +22,6 @@ import Operon.Model.Tmpl
 -/
 open Operon Operon.Proto Operon.Ribosome Operon.Tmpl
 
-structure Inst where
-  strict : Bool := false
-  fset : String := ""
-  templates : List (Str × Str) := []
-
 structure DSt where
   words : List Nat := []
   spaces : List Nat := []
@@ -198,21 +193,20 @@ def callGuard (st : DSt) (op : String) (k : Unit → String) : String :=
   | .error _ => "raise:TypeError ## call:typeerror"
   | .ok _ => k ()
 
-def getInst (st : DSt) (id : String) : Option Inst := (st.insts.find? (fun p => p.1 == id)).map (·.2)
+def getInst (st : DSt) (id : String) : Option Inst := instGet st.insts id
 
-def setInst (st : DSt) (id : String) (i : Inst) : DSt :=
-  if st.insts.any (fun p => p.1 == id) then { st with insts := st.insts.map fun p => if p.1 = id then (id, i) else p }
-  else { st with insts := st.insts ++ [(id, i)] }
+/-- one operation addressed to one instance (`Ribosome.worldStep`) -/
+def applyOp (st : DSt) (id : String) (op : InstOp) : DSt := { st with insts := worldStep st.insts (id, op) }
 
 /-- one registration on a live instance (`Ribosome.regStep`): the observation is `ok`, or `raise:ValueError` when the
     operation has no name to write under -/
 def regOn (st : DSt) (id : String) (op : RegOp) : DSt × String :=
   match getInst st id with
   | none => (st, "bad-op")
-  | some i =>
+  | some _ =>
     match op.key with
     | none => (st, "raise:ValueError")
-    | some _ => (setInst st id { i with templates := regStep i.templates op }, "ok")
+    | some _ => (applyOp st id (.reg op), "ok")
 
 def step (st : DSt) (toks : List String) : DSt × String :=
   match toks with
@@ -227,7 +221,7 @@ def step (st : DSt) (toks : List String) : DSt × String :=
         match e.splitOn ":" with
         | [k, mn, sq] => some (.assign (decodeCps k) (decodeCps mn) (decodeCps sq))
         | _ => none)
-      (setInst st id { strict := boolOf strict, fset := fset, templates := regRun [] ops }, "ok")
+      (applyOp st id (.create (boolOf strict) fset ops), "ok")
     else (st, "bad-op")
   | ["reg", id, n, mn, s] => regOn st id (.register (decodeCps n) (decodeCps mn) (decodeCps s))
   | ["put", id, k, mn, s] => regOn st id (.assign (decodeCps k) (decodeCps mn) (decodeCps s))
@@ -235,11 +229,11 @@ def step (st : DSt) (toks : List String) : DSt × String :=
   | ["strict", id, b] =>
     match getInst st id with
     | none => (st, "bad-op")
-    | some i => (setInst st id { i with strict := boolOf b }, "ok")
+    | some _ => (applyOp st id (.setStrict (boolOf b)), "ok")
   | ["filt", id, fset] =>
     match getInst st id with
     | none => (st, "bad-op")
-    | some i => if st.fsets.any (fun p => p.1 == fset) then (setInst st id { i with fset := fset }, "ok") else (st, "bad-op")
+    | some _ => if st.fsets.any (fun p => p.1 == fset) then (applyOp st id (.setFilters fset), "ok") else (st, "bad-op")
   | ["render", id, s] =>
     match getInst st id with
     | none => (st, "bad-op")
